@@ -34,6 +34,12 @@ def oracle(c):
             kw["rules_set_registry"], kw["schema_registry"] = regs
             g1, g2 = snapshot(dict(regs[0].all())), snapshot(dict(regs[1].all()))
         v = pool.PoolValidator(copy.deepcopy(schema), **kw)
+        if (len(repr(c["document"])) + len(api)) % 2:
+            # a validator that was used before (same document, normalization on) owns no more than a fresh one
+            try:
+                v.validate(copy.deepcopy(c["document"]), update=not c["update"])
+            except Exception:
+                v = pool.PoolValidator(copy.deepcopy(schema), **kw)
         doc = copy.deepcopy(c["document"])
         d_snap = snapshot(doc)
         s_snap = snapshot(dict(v.schema))
